@@ -241,7 +241,10 @@ func main() {
 		rec(1)
 	})
 	// (a3) opcode sequences of length <= 6 (7 thorough) over a 12-opcode core, operands from tiny domains
-	core := [][]byte{{'('}, {'.'}, {'N'}, {'K', 1}, {']'}, {'a'}, {'e'}, {')'}, {0x85}, {'t'}, {'}'}, {'u'}, {0x8f}, {0x90}, {0x94}, {'h', 0}, {'h', 1}, {0x8c, 1, 'd'}, {0x93}, {0x81}, {0x86}}
+	core := [][]byte{{'('}, {'.'}, {'N'}, {'K', 1}, {']'}, {'a'}, {'e'}, {')'}, {0x85}, {'t'}, {'}'}, {'u'}, {0x8f}, {0x90}, {0x94}, {'h', 0}, {'h', 1}, {0x8c, 1, 'd'}, {0x93}, {0x81}, {0x86},
+		// memo opcodes of the pickle protocol that the decoder does not implement today (explicit
+		// memo ids leave holes below them) and a reference to a higher id
+		{'q', 0}, {'q', 1}, {'q', 2}, {'h', 2}, {'r', 1, 0, 0, 0}, {'j', 0, 0, 0, 0}}
 	maxS := 5
 	if r.Thorough() {
 		maxS = 6
@@ -262,7 +265,7 @@ func main() {
 		rec(append([]byte{}, core[fi]...), 1)
 	})
 	// (b) corruptions of valid encodings
-	subst := []byte{0, 1, 0x7f, 0x80, 0xff, '(', '.', ')', ']', '}', 'a', 'e', 'u', 't', 0x81, 0x93, 0x94, 'h', 'j', 'K', 'M', 'J', 'I', 'N', 0x8c, 0x85, 0x86, 0x87, 0x8f, 0x90}
+	subst := []byte{0, 1, 0x7f, 0x80, 0xff, '(', '.', ')', ']', '}', 'a', 'e', 'u', 't', 0x81, 0x93, 0x94, 'h', 'j', 'K', 'M', 'J', 'I', 'N', 0x8c, 0x85, 0x86, 0x87, 0x8f, 0x90, 'q', 'r', 'p', 'g', '0', '2'}
 	if r.Thorough() {
 		subst = nil
 		for i := 0; i < 256; i++ {
@@ -322,7 +325,7 @@ func main() {
 	r.Finish(vlib.Coverage{
 		Evaluations:        r.Get("decodes") + r.Get("record_faults"),
 		DistinctNontrivial: r.Get("decodes")/2 - r.Get("skipped_precondition"),
-		Rule:               "all byte strings of length <=3 (256^n), all strings of length 4 (5 thorough) over 38 opcode/operand bytes, all opcode sequences of <=5 (6) ops over a 21-op core, every truncation/deletion/substitution/insertion of 6 valid encodings incl. two real function environments; each decoded without and with dawn's environment unpickler; distinct inputs are all distinct by construction",
+		Rule:               "all byte strings of length <=3 (256^n), all strings of length 4 (5 thorough) over 38 opcode/operand bytes, all opcode sequences of <=5 (6) ops over a 27-op core (incl. the protocol's explicit-id memo opcodes), every truncation/deletion/substitution/insertion of 6 valid encodings incl. two real function environments; each decoded without and with dawn's environment unpickler; distinct inputs are all distinct by construction",
 		States:             r.Get("decodes") / 2,
 		Transitions:        r.Get("decodes") + r.Get("record_faults"),
 		Exhaustive:         true,
